@@ -79,8 +79,9 @@ void inconclusive(const char *why);
 /* counters / distinct sets / samples */
 int ctr_slot(const char *name);
 extern long long CTR[];
-#define CNT(name) do { static int _s = -1; if (_s < 0) _s = ctr_slot(name); CTR[_s]++; } while (0)
-#define CNTN(name, n) do { static int _s = -1; if (_s < 0) _s = ctr_slot(name); CTR[_s] += (long long)(n); } while (0)
+/* name must be a string literal: the slot is looked up once per call site */
+#define CNT(name) do { (void)sizeof("" name); static int _s = -1; if (_s < 0) _s = ctr_slot(name); CTR[_s]++; } while (0)
+#define CNTN(name, n) do { (void)sizeof("" name); static int _s = -1; if (_s < 0) _s = ctr_slot(name); CTR[_s] += (long long)(n); } while (0)
 long long ctr_get(const char *name);
 int dset_slot(const char *name);
 void dset_add_slot(int slot, uint64_t h);
